@@ -2,9 +2,10 @@
 //@ append src/find/mod.rs
 //@ module verif_enum_find
 //@ harness e_operand_scan kind=enum props=C18 bound=<<0..=3 leading operands over {x, ./y, -, (old), !keep, a b} followed by one of: nothing, -print, ! -name z, ( -true ), -name q>> label=<<the starting points are the leading operands up to the first argument that begins with '-' (other than '-' itself) or is exactly '!', '(', ')' or ','; no operand means '.'>>
-//@ harness e_roots kind=enum props=C18,C02,C07 bound=<<1..=3 starting points over an existing directory spelled D/a, D/./a, D/a/, D/a//, D/b, a file D/b/f and a missing D/missing, real tree x -P/-H/-L x with or without -mindepth 1 x with or without -name f -print0 -quit>> label=<<starting points are walked in the order given, each path reported begins with its starting point as spelled, and a starting point that cannot be examined gives a non-zero exit status without stopping the others>>
+//@ harness e_roots kind=enum props=C18,C02,C07 bound=<<1..=3 starting points over an existing directory spelled D/a, D/./a, D/a/, D/a//, D/b, a file D/b/f and a missing D/missing, real tree x -P/-H/-L x -mindepth absent, 1, or 2 with -maxdepth 1 (an empty range: nothing evaluated, missing starting points still diagnosed) x with or without -name f -print0 -quit>> label=<<starting points are walked in the order given, each path reported begins with its starting point as spelled, and a starting point that cannot be examined gives a non-zero exit status without stopping the others>>
 //@ harness e_walk_h_link_depth kind=enum props=C02 bound=<<the same tree; -H with the link to a directory as starting point and -depth; mindepth and maxdepth each absent or 0..=3>> label=<<the multiset of entries evaluated equals the independent walk for `find -H LINK-TO-DIRECTORY ... -depth`>>
 //@ harness e_walk kind=enum props=C02 bound=<<(all combinations except -H + link-to-directory starting point + -depth, which is e_walk_h_link_depth) a real tree with files, directories two levels deep, a link to a file, a link to a directory, a dangling link, a link to an ancestor directory (a cycle under -L) with a later sibling; starting point the tree, the link to a directory or the dangling link; -P/-H/-L; mindepth and maxdepth each absent or 0..=3; -depth on/off>> label=<<the multiset of entries evaluated equals an independent lstat/stat walk: every entry with mindepth <= depth <= maxdepth exactly once; links descended only where the follow mode says so; a dangling link visited as a link; a link closing a directory cycle neither evaluated nor followed, its siblings still visited>>
+//@ harness e_prune kind=enum props=C03 bound=<<a real tree r/{a/{x, skip/{h, inner/}}, skip/{k}, m -> ../real (a link to a directory holding files), z}; the name to prune is skip, m, a or z; -P/-L; -maxdepth absent, 2 or 3; default order, -depth, or the word -delete only as an operand of -name>> label=<<find R ( -name X -prune -o -print ): in the default order exactly the descendants of the directories named X (as the follow mode sees them) are left out and everything else is visited in pre-order; under -depth nothing is cut; a word that merely looks like -delete among the operands changes nothing>>
 //@ harness e_sorted kind=enum props=C03 bound=<<directories whose entries are 2..=3 names over {a, B, a-b, a.b, e-acute, the non-UTF-8 byte 0x80, 0xff} with one subdirectory level; -sorted with and without -depth>> label=<<with -sorted the visit sequence is the pre-order (post-order under -depth) walk with siblings in byte-wise name order>>
 //@ harness e_cmdline kind=enum props=C11 thorough_bound=<<every expression of 0..=4 tokens over 27 tokens on a real two-entry tree>> bound=<<every expression of 0..=3 tokens over 27 tokens (primaries with and without operands, operators, parentheses, near-miss operands) on a real two-entry tree>> label=<<find returns an ordinary exit status for every argument vector (no panic), and when the command line is rejected nothing is printed>>
 //@ harness e_printf_time_spec kind=enum props=C11,C16 bound=<<-printf with %T, %A, %C followed by each printable ASCII character>> label=<<a time directive is either rejected before anything is printed, or renders for every entry: none is accepted and then fails while printing>>
@@ -60,10 +61,12 @@ mod verif_enum_find {
         let chosen: Vec<usize> = (0..n).map(|_| pick(7)).collect();
         let mode = ["-P", "-H", "-L"][pick(3)];
         let quit = pick(2) == 1; // ... -name f -print0 -quit: stop at the first file named f
-        let mind = pick(2) == 1; // -mindepth 1: the starting points themselves are not evaluated (but still must be examined)
+        let mind_k = pick(3); // 1: -mindepth 1 (starting points not evaluated, but still examined); 2: -mindepth 2 -maxdepth 1 (nothing is in range)
+        let mind = mind_k >= 1;
         let mut args: Vec<&str> = vec!["find", mode];
         for &c in &chosen { args.push(&spell[c].0); }
-        if mind { args.extend_from_slice(&["-mindepth", "1"]); }
+        if mind_k == 1 { args.extend_from_slice(&["-mindepth", "1"]); }
+        if mind_k == 2 { args.extend_from_slice(&["-mindepth", "2", "-maxdepth", "1"]); }
         if quit { args.extend_from_slice(&["-name", "f", "-print0", "-quit"]); } else { args.push("-print0"); }
         let (rc, out) = run(&args);
         let mut want: Vec<u8> = Vec::new();
@@ -72,6 +75,7 @@ mod verif_enum_find {
             let (s, child, exists) = &spell[c];
             if !exists { want_rc = 1; continue; }
             if !quit && !mind { want.extend_from_slice(s.as_bytes()); want.push(0); }
+            if mind_k == 2 { continue; }
             if let Some(ch) = child {
                 want.extend_from_slice(s.as_bytes());
                 if !s.ends_with('/') { want.push(b'/'); }
@@ -145,6 +149,50 @@ mod verif_enum_find {
     }
     #[test] fn e_walk() { kani::explore(walk_body) }
     #[test] fn e_walk_h_link_depth() { kani::explore(walk_h_body) }
+
+    fn prune_body() {
+        let d = scratch("prune");
+        let r = d.join("r");
+        std::fs::create_dir_all(r.join("a/skip/inner")).unwrap();
+        std::fs::create_dir_all(r.join("skip")).unwrap();
+        std::fs::create_dir_all(d.join("real/sub")).unwrap();
+        for f in ["r/a/x", "r/a/skip/h", "r/skip/k", "r/z", "real/inner", "real/sub/deep"] { std::fs::write(d.join(f), "").unwrap(); }
+        symlink("../real", r.join("m")).unwrap();
+        let x = ["skip", "m", "a", "z"][pick(4)];
+        let follow = pick(2) == 1;
+        let maxd = [None, Some(2usize), Some(3)][pick(3)];
+        let variant = pick(3); // 0 default order, 1 -depth, 2 the word "-delete" as an operand only
+        let rs = r.to_str().unwrap().to_string();
+        let maxs = maxd.map(|m| m.to_string());
+        let mut args: Vec<&str> = vec!["find", if follow { "-L" } else { "-P" }, &rs, "-sorted"];
+        if let Some(m) = &maxs { args.push("-maxdepth"); args.push(m); }
+        if variant == 1 { args.push("-depth"); }
+        args.extend_from_slice(&["(", "-name", x, "-prune", "-o", "-print", ")"]);
+        if variant == 2 { args.extend_from_slice(&["-o", "-name", "-delete"]); }
+        let (rc, out) = run(&args);
+        let got: Vec<String> = String::from_utf8_lossy(&out).lines().map(|l| l.to_string()).collect();
+        // reference: pre-order (post-order under -depth) walk in byte-wise name order
+        fn walk(p: &Path, depth: usize, follow: bool, maxd: usize, x: &str, post: bool, out: &mut Vec<String>) {
+            let md = if follow { std::fs::metadata(p).or_else(|_| std::fs::symlink_metadata(p)) } else { std::fs::symlink_metadata(p) }.unwrap();
+            let named = p.file_name().map(|n| n == x).unwrap_or(false);
+            // -name X -prune -o -print: an entry named X is not printed; if it is a directory its subtree is cut (default order only)
+            if !post && !named { out.push(p.to_string_lossy().into_owned()); }
+            if md.is_dir() && depth < maxd && !(named && !post) {
+                let mut kids: Vec<PathBuf> = std::fs::read_dir(p).unwrap().map(|e| e.unwrap().path()).collect();
+                kids.sort_by(|a, b| a.file_name().unwrap().as_bytes().cmp(b.file_name().unwrap().as_bytes()));
+                for k in kids { walk(&k, depth + 1, follow, maxd, x, post, out); }
+            }
+            if post && !named { out.push(p.to_string_lossy().into_owned()); }
+        }
+        let mut want = Vec::new();
+        walk(&r, 0, follow, maxd.unwrap_or(usize::MAX), x, variant == 1, &mut want);
+        let _ = std::fs::remove_dir_all(&d);
+        let ds = d.to_str().unwrap().to_string();
+        if got != want || rc != 0 { eprintln!("  input find {:?}\n  input printed  {:?} (exit {rc})\n  input expected {:?}", args[1..].iter().map(|a| a.replace(&ds, "D")).collect::<Vec<_>>(), got.iter().map(|g| g.replace(&ds, "D")).collect::<Vec<_>>(), want.iter().map(|g| g.replace(&ds, "D")).collect::<Vec<_>>()); }
+        assert!(got == want, "-prune must cut exactly the subtrees of the named directories, in the default order only");
+        assert!(rc == 0, "exit status");
+    }
+    #[test] fn e_prune() { kani::explore(prune_body) }
 
     fn sorted_body() {
         use std::ffi::OsStr;
